@@ -558,7 +558,8 @@ func (c *Ctx) RuleStoreThenError(fns []*ssa.Function) {
 						if nilOnEdge(ed, p) {
 							continue
 						}
-						if p == blk || from[p] {
+						// the store sits in the merging block itself: it runs after the merge whichever edge was taken
+						if p == blk || from[p] || blk == b {
 							reaches = true
 						}
 					}
@@ -1305,7 +1306,7 @@ func (c *Ctx) RuleTableConst(rule string, g *ssa.Global) {
 						c.addc("violated", rule, fn, x.Pos(), "write "+g.Name(), "package-level table "+g.Name()+" is reassigned at run time: the constants the rules read are no longer what the code uses", "")
 						bad = true
 					}
-					if ia, ok := x.Addr.(*ssa.IndexAddr); ok && globalLoad(ia.X) == g {
+					if ia, ok := x.Addr.(*ssa.IndexAddr); ok && (globalLoad(ia.X) == g || ia.X == ssa.Value(g)) {
 						c.addc("violated", rule, fn, x.Pos(), "write "+g.Name(), "element of table "+g.Name()+" is overwritten at run time", "")
 						bad = true
 					}
@@ -1319,6 +1320,29 @@ func (c *Ctx) RuleTableConst(rule string, g *ssa.Global) {
 						if *op == ssa.Value(g) {
 							if u, ok := in.(*ssa.UnOp); ok && u.Op == token.MUL {
 								continue // plain load
+							}
+							// an array-typed table is indexed through its address: &g[i] that is only loaded from (or
+							// stored to: reported above) does not hand the table out
+							if ia, ok := in.(*ssa.IndexAddr); ok && ia.X == ssa.Value(g) {
+								onlyAccess := true
+								for _, r := range *ia.Referrers() {
+									switch y := r.(type) {
+									case *ssa.UnOp:
+										if y.Op != token.MUL {
+											onlyAccess = false
+										}
+									case *ssa.Store:
+										if y.Addr != ssa.Value(ia) {
+											onlyAccess = false
+										}
+									case *ssa.DebugRef:
+									default:
+										onlyAccess = false
+									}
+								}
+								if onlyAccess {
+									continue
+								}
 							}
 							c.addc("undecided", rule, fn, in.Pos(), "address "+g.Name(), "address of table "+g.Name()+" escapes (who-writes analysis not applicable)", "")
 							bad = true
